@@ -668,6 +668,9 @@ func sharedSessionOrigin(c *Ctx, fn *ssa.Function, v ssa.Value, d int, seen map[
 		if x.Op != token.MUL {
 			return ""
 		}
+		if fv, ok := x.X.(*ssa.FreeVar); ok {
+			return sharedSessionOrigin(c, fn, fv, d, seen) // a variable captured by reference
+		}
 		if al, ok := x.X.(*ssa.Alloc); ok {
 			for _, r := range *al.Referrers() {
 				if st, ok := r.(*ssa.Store); ok && st.Addr == ssa.Value(al) {
@@ -703,6 +706,65 @@ func sharedSessionOrigin(c *Ctx, fn *ssa.Function, v ssa.Value, d int, seen map[
 				if bad := sharedSessionOrigin(c, e.Caller.Func, args[idx-off], d+1, seen); bad != "" {
 					return bad
 				}
+			}
+		}
+	case *ssa.FreeVar:
+		// captured by a closure: per request as long as the closure is — a closure (or what is built around it) that
+		// is kept in a member outlives the request whose session it captured
+		parent := fn.Parent()
+		if parent == nil {
+			return ""
+		}
+		for _, outer := range ir.WithClosures(ir.Outer(fn)) {
+			var kept string
+			ir.EachInstr(outer, func(_ *ssa.BasicBlock, _ int, in ssa.Instruction) {
+				mc, ok := in.(*ssa.MakeClosure)
+				if !ok || mc.Fn != ssa.Value(fn) || mc.Referrers() == nil {
+					return
+				}
+				vals := []ssa.Value{mc}
+				for i := 0; i < len(vals) && i < 8; i++ {
+					if vals[i].Referrers() == nil {
+						continue
+					}
+					for _, r := range *vals[i].Referrers() {
+						switch y := r.(type) {
+						case *ssa.Store:
+							if fa, ok := y.Addr.(*ssa.FieldAddr); ok && y.Val == vals[i] {
+								if key, _, _, base := ir.FullField(fa); key != "" && !ir.BaseAlloc(base) {
+									kept = key
+								}
+							}
+						case *ssa.Call:
+							vals = append(vals, y) // a chain built around the closure
+						case *ssa.ChangeType:
+							vals = append(vals, y)
+						case *ssa.MakeInterface:
+							vals = append(vals, y)
+						}
+					}
+				}
+			})
+			if kept != "" {
+				return "a closure kept in the member " + kept + " (it captured the session of the request that built it)"
+			}
+		}
+		// otherwise: what the closure captured
+		for _, outer := range ir.WithClosures(ir.Outer(fn)) {
+			var bad string
+			ir.EachInstr(outer, func(_ *ssa.BasicBlock, _ int, in ssa.Instruction) {
+				mc, ok := in.(*ssa.MakeClosure)
+				if !ok || mc.Fn != ssa.Value(fn) {
+					return
+				}
+				for i, fv := range fn.FreeVars {
+					if fv == x && i < len(mc.Bindings) && bad == "" {
+						bad = sharedSessionOrigin(c, outer, mc.Bindings[i], d+1, seen)
+					}
+				}
+			})
+			if bad != "" {
+				return bad
 			}
 		}
 	}
